@@ -448,7 +448,30 @@ class Frame:
             return base, int(i)
         raise ExtractError('emit_smt: lvalue kind %r' % (k,))
 
+    def symbolic_elem(self, lv, pc):
+        """(base list, index term) for an Eigen coefficient access with a run-time index, else None"""
+        if lv[0] != 'elemx':
+            return None
+        i = self.ev(lv[2], pc)
+        if re.match(r'^\d+$', i):
+            return None
+        c, key = self.loc(lv[1], pc)
+        base = c.v if key is None else c[key]
+        if isinstance(base, Cell): base = base.v
+        if not isinstance(base, list):
+            raise ExtractError('emit_smt: run-time index into a non-array')
+        self.B.oblige('index.in_bounds', land(app('<=', '0', i), app('<', i, str(len(base)))), pc)
+        self.B.note('Eigen coefficient access with a run-time index: read = ite chain over the coefficients, write = conditional update of each')
+        return base, i
+
     def load(self, lv, pc):
+        se = self.symbolic_elem(lv, pc)
+        if se is not None:
+            base, i = se
+            v = base[-1]
+            for k in range(len(base) - 2, -1, -1):
+                v = ite(app('=', i, str(k)), base[k], v)
+            return v
         c, key = self.loc(lv, pc)
         v = c.v if key is None else c[key]
         if v is None:
@@ -456,6 +479,12 @@ class Frame:
         return v
 
     def store(self, lv, v, pc):
+        se = self.symbolic_elem(lv, pc)
+        if se is not None:
+            base, i = se
+            for k in range(len(base)):
+                base[k] = ite(app('=', i, str(k)), v, base[k])
+            return
         c, key = self.loc(lv, pc)
         if isinstance(v, (list, dict)):
             v = self.copyval(v)
